@@ -13,19 +13,13 @@ Proof. intros p k H. discriminate H. Qed.
 
 Lemma G_drain ev : forall s s' dr ks, GInv s -> drain s ev = (s', dr, ks) -> GInv s'.
 Proof.
-  induction ev as [|e t IH]; intros s s' dr ks G; cbn.
-  - intros H; injection H as <- _ _. exact G.
-  - destruct e.
-    + destruct (hval s p).
-      * destruct (drain s t) as [[a b] c0] eqn:E. intros H; injection H as <- _ _. eapply IH; eauto.
-      * intros H. eapply (IH (set_hval s p true) _ _ _ G H).
-    + intros H. eapply (IH _ _ _ _ _ H). Unshelve.
-      intros q k. setters. unfold upd. destruct (q =? p); auto. apply G.
-    + destruct (drain (set_hsink (set_hopen s p false) p None) t) as [[a b] c0] eqn:E.
-      intros H; injection H as <- _ _. eapply (IH _ _ _ _ _ E). Unshelve.
-      intros q k. setters. unfold upd. destruct (q =? p); [discriminate|]. apply G.
-    + intros H. eapply IH; eauto.
-    + intros H. eapply IH; eauto.
+  intros s s' dr ks G D. revert G. revert s s' dr ks D.
+  apply (drain_rel (fun s s' => GInv s -> GInv s')).
+  - intros s G. exact G.
+  - intros s1 s2 s3 A B G. auto.
+  - intros s p G. exact G.
+  - intros s p G q k. setters. unfold upd. destruct (q =? p); auto. apply G.
+  - intros s p G q k. setters. unfold upd. destruct (q =? p); [discriminate|]. apply G.
 Qed.
 
 Lemma task_dies_gate s k s' ev : task_dies s k = (s', ev) -> hopen s' = hopen s /\ hsink s' = hsink s.
@@ -95,8 +89,6 @@ Lemma wire_main c s o s1 ev cl q k m :
 Proof.
   intros M. destruct o; unfold_handlers M; cbn [send_sink].
   all: try (split_all; nowire).
-  - match type of M with context [finish_tasks ?a ?b] => destruct (finish_tasks a b) as [[l' e'] n'] end.
-    split_all. nowire.
   - injection M as <- <- <-. unfold handle_send. destruct (hsink s p) as [k0|]; [|nowire].
     intros H. destruct (sink_send_wire _ _ _ _ _ _ _ _ H) as (-> & -> & R & T). eauto.
   - injection M as <- <- <-. unfold handle_send. destruct (hsink s p) as [k0|]; [|nowire].
